@@ -96,6 +96,14 @@ class SFTPFile(BufferedFile):
         if self.pipelined:
             self.sftp._finish_responses(self)
         BufferedFile.close(self)
+        write_failure = None
+        if not async_:
+            # the outcome of pipelined writes still in flight must not get
+            # lost: a write the server rejected is reported here at the latest
+            try:
+                self._collect_write_responses()
+            except Exception as e:
+                write_failure = e
         try:
             if async_:
                 # GC'd file handle could be called from an arbitrary thread
@@ -109,6 +117,19 @@ class SFTPFile(BufferedFile):
         except (IOError, socket.error):
             # may have outlived the Transport connection
             pass
+        if write_failure is not None:
+            raise write_failure
+
+    def _collect_write_responses(self):
+        while len(self._reqs):
+            req = self._reqs.popleft()
+            if req not in self.sftp._expecting:
+                # already consumed while waiting for some other response
+                continue
+            t, msg = self.sftp._read_response(req)
+            if t != CMD_STATUS:
+                raise SFTPError("Expected status")
+            # convert_status already called
 
     def _data_in_prefetch_requests(self, offset, size):
         k = [
@@ -211,17 +232,7 @@ class SFTPFile(BufferedFile):
         if not self.pipelined or (
             len(self._reqs) > 100 and self.sftp.sock.recv_ready()
         ):
-            while len(self._reqs):
-                req = self._reqs.popleft()
-                if req not in self.sftp._expecting:
-                    # its status was already read (and dropped) while some
-                    # other request was waiting for its own response;
-                    # waiting for it again would block forever.
-                    continue
-                t, msg = self.sftp._read_response(req)
-                if t != CMD_STATUS:
-                    raise SFTPError("Expected status")
-                # convert_status already called
+            self._collect_write_responses()
         return chunk
 
     def settimeout(self, timeout):
